@@ -145,14 +145,18 @@ package delegation
 //@
 //@ // ---- sealing: C08 (the CID is the content address of the sealed bytes) and C18 (streaming = buffered) ----
 //@ // sealedNode names the envelope node toIPLD builds for (token, key); toIPLD itself is trusted here
-//@ ghost func sealedNoded(t *Token, k crypto.PrivKey) datamodel.Node
+//@ // (signing may be randomised - ECDSA over the NIST curves is - so the node also depends on which signing of the key it
+//@ // is: signings(k) counts them, and each sealing function is verified to sign exactly once)
+//@ ghost func sealedNoded(t *Token, k crypto.PrivKey, n int) datamodel.Node
 //@ // the model a token is sealed from: every field of the token, printed (identifiers, command), converted to whole seconds
 //@ // (time bounds) or carried over (policy node, nonce, metadata)
 //@ // input validity for sealing: a token as built by the constructors or the decoder (non-nil metadata, issuer in generated form, well-formed policy) and a key
 //@ pure func canSeal(t *Token, k crypto.PrivKey) bool = t != nil && k != nil && t.meta != nil && wfDID(t.issuer) && polWF(t.policy)
 //@ func (*Token).toIPLD
 //@   requires canSeal(t, privKey)
-//@   assumes result1 == nil ==> result0 == sealedNoded(t, privKey)
+//@   assumes result1 == nil ==> result0 == sealedNoded(t, privKey, old(signings(privKey)))
+//@   assigns signings(privKey)
+//@   ensures [C08,C18] once: result1 == nil ==> signings(privKey) == old(signings(privKey)) + 1
 //@   ensures result1 == nil ==> result0 != nil
 //@   ensures [C07] model: result1 == nil ==> sealedModel(result0) is *tokenPayloadModel && sealedModel(result0).(*tokenPayloadModel) != nil && modelOf(sealedModel(result0).(*tokenPayloadModel), t)
 //@ pure func modelOf(m *tokenPayloadModel, t *Token) bool =
@@ -166,22 +170,28 @@ package delegation
 //@ pure func polShape(n datamodel.Node, p policy.Policy) bool = n != nil && nodeKind(n) == datamodel.Kind_List && listLen(n) == len(p) && (forall j int :: 0 <= j && j < len(p) ==> nodeKind(listElem(n, j)) == datamodel.Kind_List && nodeStr(listElem(listElem(n, j), 0)) == stmtKind(p[j]))
 //@ func (*Token).Encode
 //@   requires canSeal(t, privKey)
-//@   ensures [C08,C18] bytes: result1 == nil ==> bytes(result0) == encodeWith(encFn, sealedNoded(t, privKey))
+//@   ensures [C08,C18] bytes: result1 == nil ==> bytes(result0) == encodeWith(encFn, sealedNoded(t, privKey, old(signings(privKey))))
+//@   assigns signings(privKey)
+//@   ensures [C08,C18] once: result1 == nil ==> signings(privKey) == old(signings(privKey)) + 1
 //@ func (*Token).ToSealed
 //@   requires canSeal(t, privKey)
 //@   ensures [C08] cid: result2 == nil ==> result1 == ucanCid(bytes(result0))
-//@   ensures [C08,C18] bytes: result2 == nil ==> bytes(result0) == encodeWith(dagcbor.Encode, sealedNoded(t, privKey))
+//@   ensures [C08,C18] bytes: result2 == nil ==> bytes(result0) == encodeWith(dagcbor.Encode, sealedNoded(t, privKey, old(signings(privKey))))
+//@   assigns signings(privKey)
+//@   ensures [C08,C18] once: result2 == nil ==> signings(privKey) == old(signings(privKey)) + 1
 //@ func (*Token).EncodeWriter
 //@   inline
 //@   requires canSeal(t, privKey) && w != nil
-//@   ensures [C18] bytes: result == nil ==> written(w) == old(written(w)) ++ encodeWith(encFn, sealedNoded(t, privKey)) && wfailed(w) == old(wfailed(w))
-//@   assigns written(w), wfailed(w)
+//@   ensures [C18] bytes: result == nil ==> written(w) == old(written(w)) ++ encodeWith(encFn, sealedNoded(t, privKey, old(signings(privKey)))) && wfailed(w) == old(wfailed(w))
+//@   ensures [C08,C18] once: result == nil ==> signings(privKey) == old(signings(privKey)) + 1
+//@   assigns written(w), wfailed(w), signings(privKey)
 //@ func (*Token).ToSealedWriter
 //@   requires canSeal(t, privKey) && w != nil
 //@   use cid_sum_sha256
-//@   ensures [C18] bytes: result1 == nil ==> written(w) == old(written(w)) ++ encodeWith(dagcbor.Encode, sealedNoded(t, privKey)) && wfailed(w) == old(wfailed(w))
-//@   ensures [C08,C18] cid: result1 == nil ==> result0 == ucanCid(encodeWith(dagcbor.Encode, sealedNoded(t, privKey)))
-//@   assigns written(w), wfailed(w)
+//@   ensures [C18] bytes: result1 == nil ==> written(w) == old(written(w)) ++ encodeWith(dagcbor.Encode, sealedNoded(t, privKey, old(signings(privKey)))) && wfailed(w) == old(wfailed(w))
+//@   ensures [C08,C18] cid: result1 == nil ==> result0 == ucanCid(encodeWith(dagcbor.Encode, sealedNoded(t, privKey, old(signings(privKey)))))
+//@   ensures [C08,C18] once: result1 == nil ==> signings(privKey) == old(signings(privKey)) + 1
+//@   assigns written(w), wfailed(w), signings(privKey)
 //@ func DecodeReader
 //@   inline
 //@   requires r != nil && decFn != nil
